@@ -41,6 +41,8 @@ def gen(rng, i, tier):
         if rng.random() < 0.1:
             t = [(k, v) for k, v in t if not k]
         return {"op": "approx", "fn": fn, "form": form, "terms": G.jraw(t), "num": rng.choice("qqf") if G.dyadic(t) else "q"}
+    if rng.random() < 0.3:
+        return gen_temp_bool(rng)
     form = rng.choice(["dict", "dict"] + list(KINDS_S.keys()))
     quad = form.startswith("Q")
     uni = 'int' if form.endswith("Matrix") else rng.choice(['int', 'pool'])
@@ -54,6 +56,31 @@ def gen(rng, i, tier):
     e = rng.choice([x for x in [F(1, 2), F(1, 100), F(0), F(1, 1000)] if x <= s])
     return {"op": "temp", "form": form, "terms": G.jraw(t), "upd": G.jraw(upd), "s": [s.numerator, s.denominator],
             "e": [e.numerator, e.denominator]}
+
+
+def gen_temp_bool(rng):
+    """anneal_temperature_range on a boolean model (spin=False): the range of its spin image"""
+    G.DYADIC_ONLY = True          # the conversion multiplies by powers of 1/2
+    try:
+        form = rng.choice(["dict", "dict"] + list(KINDS_B.keys()))
+        quad = form.startswith("Q")
+        uni = 'int' if form.endswith("Matrix") else rng.choice(['int', 'pool'])
+        t = G.quad_terms(rng, uni, spin=False) if quad else G.raw_terms(rng, uni, max_vars=5, max_terms=6, max_deg=4)
+        t = [(k, v) for k, v in t if v != 0]
+        if form == "dict":
+            seen, tt = set(), []
+            for k, v in t:
+                kk = tuple(sorted(set(k), key=C.enc))
+                if kk not in seen:
+                    seen.add(kk)
+                    tt.append((kk, v))
+            t = tt
+    finally:
+        G.DYADIC_ONLY = False
+    s = rng.choice([F(1, 2), F(9, 10), F(1, 100), F(0)])
+    e = rng.choice([x for x in [F(1, 2), F(1, 100), F(0), F(1, 1000)] if x <= s])
+    return {"op": "temp", "form": form, "terms": G.jraw(t), "upd": [], "s": [s.numerator, s.denominator],
+            "e": [e.numerator, e.denominator], "bool": True}
 
 
 def build(case):
@@ -82,10 +109,15 @@ def run_impl(case):
     mod = sys.modules['qubovert.sim._anneal_temperature_range']
     real_log = mod.log
     out = {}
+    spin = not case.get("bool")
+    if not spin:
+        # the spin image, by the library's own converter (tied to the model by C04): the boolean call must give its range
+        S = qv.utils.pubo_to_puso(dict(obj))
+        out["spin_image"] = C.jterms(C.enc_terms(S, sort_keys=False))
     try:
         mod.log = lambda p: -1
         try:
-            T0, Tf = C.pure_call(qv.sim.anneal_temperature_range, obj, 0.5, 0.25, True)
+            T0, Tf = C.pure_call(qv.sim.anneal_temperature_range, obj, 0.5, 0.25, spin)
             out["M"], out["m"] = str(C.toF(T0)), str(C.toF(Tf))
             out["zero"] = (T0 == 0 and Tf == 0 and type(T0) is int)
         except ValueError as ex:
@@ -94,7 +126,7 @@ def run_impl(case):
         mod.log = real_log
     s, e = F(*case["s"]), F(*case["e"])
     try:
-        T0, Tf = qv.sim.anneal_temperature_range(obj, float(s), float(e), True)
+        T0, Tf = qv.sim.anneal_temperature_range(obj, float(s), float(e), spin)
         out["T0"], out["Tf"] = T0, Tf
     except ValueError:
         out["real_error"] = "ValueError"
@@ -116,6 +148,8 @@ def literal(case, out):
         exp = "OTemp TZero"
     else:
         exp = "OTemp (TVals %s %s)" % (C.q(F(out["m"])), C.q(F(out["M"])))
+    if case.get("bool"):
+        return "(TempDict %s, %s)" % (C.termsl([(k, F(v[0], v[1])) for k, v in out["spin_image"]]), exp)
     if case["form"] == "dict":
         return "(TempDict %s, %s)" % (t, exp)
     upd = C.termsl([(k, F(v[0], v[1])) for k, v in case["upd"]])
@@ -182,6 +216,8 @@ def tags(case, out):
         t.append("temp:" + ("error" if "error" in out else "zero" if out.get("zero") else "values"))
         if case["upd"]:
             t.append("temp:stale-object")
+        if case.get("bool"):
+            t.append("temp:boolean-model:" + case["form"])
     elif all(not k for k, _ in case["terms"]):
         t.append("approx:constant-model")
     return t
